@@ -360,6 +360,228 @@ def _literal_tables(tree: ast.Module) -> None:
     ast.fix_missing_locations(tree)
 
 
+BASELINE_PROPERTIES = {"row_count", "supports_cas", "atomic_write_failures"}  # the @property names of the audited tree
+
+
+def _name_tokens(n: str) -> set:
+    return {t for t in n.lower().split("_") if t}
+
+
+def _undo_renames(parsed: List[Tuple[str, ast.Module]], known: Optional[set]) -> None:
+    """A function the rules are anchored on may simply have been RENAMED (`_load_inflight_protection` ->
+    `_iter_inflight_protection`).  When exactly one audited function of a class / module is gone, and exactly one function that
+    the audited tree did not have appeared in the same scope sharing at least half of its name's words - and neither name is
+    used for anything else in the package - the new name is read as the old one (definition and every reference).  Anything
+    less clear-cut is left alone: the anchor lookup then fails as analysis-broken."""
+    if known is None:
+        return
+    defs_by_name: Dict[str, int] = {}
+    scopes: List[Tuple[str, List[ast.FunctionDef]]] = []
+    for fn, tree in parsed:
+        modname = f"{PKG}.{fn[:-3]}" if fn != "__init__.py" else PKG
+        scopes.append((modname, [st for st in tree.body if isinstance(st, ast.FunctionDef)]))
+        for c in tree.body:
+            if isinstance(c, ast.ClassDef):
+                scopes.append((f"{modname}.{c.name}", [st for st in c.body if isinstance(st, ast.FunctionDef)]))
+        for x in ast.walk(tree):
+            if isinstance(x, (ast.FunctionDef, ast.AsyncFunctionDef)):
+                defs_by_name[x.name] = defs_by_name.get(x.name, 0) + 1
+    attrs_stored = {x.attr for _fn, t in parsed for x in ast.walk(t) if isinstance(x, ast.Attribute) and isinstance(x.ctx, ast.Store)}
+    renames: Dict[str, str] = {}
+    for scope, fdefs in scopes:
+        kn = {q.rsplit(".", 1)[1] for q in known if q.rsplit(".", 1)[0] == scope}
+        if not kn:
+            continue
+        present = {fd.name for fd in fdefs}
+        gone = sorted(v for v in kn - present if v not in defs_by_name and not v.startswith("__"))
+        fresh = sorted(n for n in present - kn if defs_by_name.get(n) == 1 and not n.startswith("__") and n not in attrs_stored
+                       and not any(q.rsplit(".", 1)[1] == n for q in known))
+        if len(gone) != 1 or not fresh:
+            continue
+        v = gone[0]
+        scored = sorted(((len(_name_tokens(v) & _name_tokens(n)) / max(1, len(_name_tokens(v) | _name_tokens(n))), n) for n in fresh), reverse=True)
+        if scored[0][0] >= 0.5 and (len(scored) == 1 or scored[1][0] < scored[0][0]) and scored[0][1] not in renames:
+            renames[scored[0][1]] = v
+    if not renames:
+        return
+    for _fn, tree in parsed:
+        for x in ast.walk(tree):
+            if isinstance(x, (ast.FunctionDef, ast.AsyncFunctionDef)) and x.name in renames:
+                x.name = renames[x.name]
+            elif isinstance(x, ast.Attribute) and x.attr in renames:
+                x.attr = renames[x.attr]
+            elif isinstance(x, ast.Name) and x.id in renames:
+                x.id = renames[x.id]
+            elif isinstance(x, ast.alias) and x.name in renames:
+                x.name = renames[x.name]
+
+
+BASELINE_GENERATORS = {"read_batches", "read_batches_pandas", "file_lock", "scan_batches", "_iter_file_batches", "iter_records",
+                       "iter_pandas"}  # the generator functions of the audited tree (streaming by design)
+_CONSUMERS = {"set", "list", "tuple", "sorted", "frozenset", "any", "all", "sum", "max", "min", "dict"}
+
+
+def _own_nodes(fd: ast.AST) -> Iterator[ast.AST]:
+    """Nodes of a function body, not descending into nested function / class definitions."""
+    stack = list(ast.iter_child_nodes(fd))
+    while stack:
+        x = stack.pop()
+        yield x
+        if isinstance(x, (ast.FunctionDef, ast.AsyncFunctionDef, ast.Lambda, ast.ClassDef)):
+            continue
+        stack.extend(ast.iter_child_nodes(x))
+
+
+def _eager_generators_as_collectors(parsed: List[Tuple[str, ast.Module]], known: Optional[set]) -> None:
+    """A function that the audited tree did not have as a generator and that is CONSUMED ON THE SPOT at every reference
+    (`set(self._iter_x(..))`, `for p in _iter_x(..)`, a comprehension over it) computes the same values, in the same order and
+    at the same moment, as the collecting form `acc = []; ...; acc.append(v); ...; return acc` - it is read as that, so that
+    the rules see the familiar shape (what is added where, under which handler).  A generator object that is stored and
+    consumed later is NOT rewritten: its body runs at the consumption site, which is exactly what an ordering rule must see."""
+    if known is None:
+        return
+    cands: Dict[str, List[ast.FunctionDef]] = {}
+    for _fn, tree in parsed:
+        for fd in ast.walk(tree):
+            if not isinstance(fd, ast.FunctionDef) or fd.name in BASELINE_GENERATORS or fd.name.startswith("__"):
+                continue
+            ys = [x for x in _own_nodes(fd) if isinstance(x, (ast.Yield, ast.YieldFrom))]
+            if not ys:
+                continue
+            if any(not (isinstance(d, ast.Name) and d.id in ("staticmethod", "classmethod")) for d in fd.decorator_list):
+                cands.setdefault(fd.name, []).append(None)  # type: ignore[arg-type]  # a decorated generator (context manager): hands off
+                continue
+            stmts_ok = all(isinstance(st, ast.Expr) and isinstance(st.value, (ast.Yield, ast.YieldFrom)) and st.value.value is not None
+                           for st in _own_nodes(fd) if isinstance(st, ast.Expr) and isinstance(st.value, (ast.Yield, ast.YieldFrom)))
+            as_stmt = {id(st.value) for st in _own_nodes(fd) if isinstance(st, ast.Expr) and isinstance(st.value, (ast.Yield, ast.YieldFrom))}
+            rets_ok = all(r.value is None for r in _own_nodes(fd) if isinstance(r, ast.Return))
+            if stmts_ok and rets_ok and all(id(y) in as_stmt for y in ys):
+                cands.setdefault(fd.name, []).append(fd)
+            else:
+                cands.setdefault(fd.name, []).append(None)  # type: ignore[arg-type]
+    names = {n for n, fds in cands.items() if len(fds) == 1 and fds[0] is not None}
+    if not names:
+        return
+    # every reference is a call consumed on the spot
+    for _fn, tree in parsed:
+        parents: Dict[int, ast.AST] = {}
+        for p_ in ast.walk(tree):
+            for c_ in ast.iter_child_nodes(p_):
+                parents[id(c_)] = p_
+        for x in ast.walk(tree):
+            nm = x.attr if isinstance(x, ast.Attribute) else (x.id if isinstance(x, ast.Name) and isinstance(x.ctx, ast.Load) else None)
+            if nm not in names:
+                continue
+            call = parents.get(id(x))
+            ok = isinstance(call, ast.Call) and call.func is x
+            if ok:
+                up = parents.get(id(call))
+                ok = (isinstance(up, ast.Call) and isinstance(up.func, ast.Name) and up.func.id in _CONSUMERS and up.args and up.args[0] is call) \
+                    or (isinstance(up, (ast.For, ast.comprehension)) and up.iter is call) \
+                    or (isinstance(up, ast.YieldFrom) and up.value is call) or isinstance(up, ast.Starred) \
+                    or (isinstance(up, ast.Call) and isinstance(up.func, ast.Attribute) and up.func.attr in ("join", "extend", "update") and up.args and up.args[0] is call)
+            if not ok:
+                names.discard(nm)
+    for n in sorted(names):
+        fd = cands[n][0]
+        acc = f"{n.strip('_')}_yielded"
+
+        class _Rw(ast.NodeTransformer):
+            def visit_FunctionDef(self, node: ast.FunctionDef) -> ast.AST:
+                return node if node is not fd else self.generic_visit(node)
+
+            def visit_Lambda(self, node: ast.Lambda) -> ast.AST:
+                return node
+
+            def visit_Expr(self, node: ast.Expr) -> ast.AST:
+                v = node.value
+                if isinstance(v, ast.Yield):
+                    new = ast.Expr(value=ast.Call(func=ast.Attribute(value=ast.Name(id=acc, ctx=ast.Load()), attr="append", ctx=ast.Load()),
+                                                  args=[v.value], keywords=[]))
+                    return ast.copy_location(new, node)
+                if isinstance(v, ast.YieldFrom):
+                    new = ast.Expr(value=ast.Call(func=ast.Attribute(value=ast.Name(id=acc, ctx=ast.Load()), attr="extend", ctx=ast.Load()),
+                                                  args=[v.value], keywords=[]))
+                    return ast.copy_location(new, node)
+                return node
+
+            def visit_Return(self, node: ast.Return) -> ast.AST:
+                return ast.copy_location(ast.Return(value=ast.Name(id=acc, ctx=ast.Load())), node)
+
+        body = [_Rw().visit(st) for st in fd.body]
+        first = body[0] if body else fd
+        init = ast.copy_location(ast.Assign(targets=[ast.Name(id=acc, ctx=ast.Store())], value=ast.List(elts=[], ctx=ast.Load())), first)
+        doc = body[:1] if body and isinstance(body[0], ast.Expr) and isinstance(getattr(body[0], "value", None), ast.Constant) else []
+        last = body[-1] if body else fd
+        fin = ast.Return(value=ast.Name(id=acc, ctx=ast.Load()))
+        fin.lineno = getattr(last, "end_lineno", None) or getattr(last, "lineno", fd.lineno)
+        fin.col_offset = fd.col_offset + 4
+        fd.body = doc + [init] + body[len(doc):] + [fin]
+        fd.returns = None
+        ast.fix_missing_locations(fd)
+
+
+def _new_properties_as_methods(parsed: List[Tuple[str, ast.Module]], known: Optional[set]) -> None:
+    """A read-only @property that today's tree does not have (not in known_functions.txt) is a parameterless helper wearing
+    attribute syntax: `self.real_base_path` for `self._real_base_path()`.  It is turned back into a plain method and every read
+    of the attribute into a call, so that the CFG builder analyses it in place like any other later-introduced helper.  Only
+    names that are nowhere assigned as an attribute / declared as a field (no collision with a plain attribute of that name)."""
+    if known is None:
+        return
+    cands: Dict[str, List[ast.FunctionDef]] = {}
+    taken: set = set()
+    for fn, tree in parsed:
+        modname = f"{PKG}.{fn[:-3]}" if fn != "__init__.py" else PKG
+        for c in [x for x in ast.walk(tree) if isinstance(x, ast.ClassDef)]:
+            for st in c.body:
+                if isinstance(st, ast.AnnAssign) and isinstance(st.target, ast.Name):
+                    taken.add(st.target.id)
+                if isinstance(st, ast.Assign):
+                    taken.update(t.id for t in st.targets if isinstance(t, ast.Name))
+                if isinstance(st, ast.FunctionDef):
+                    decs = [d for d in st.decorator_list]
+                    if any(isinstance(d, ast.Attribute) and d.attr in ("setter", "deleter") for d in decs):
+                        taken.add(st.name)
+                    elif len(decs) == 1 and isinstance(decs[0], ast.Name) and decs[0].id == "property" \
+                            and st.name not in BASELINE_PROPERTIES and not st.name.startswith("__") \
+                            and not any(isinstance(x, (ast.Yield, ast.YieldFrom, ast.Await)) for x in ast.walk(st)):
+                        cands.setdefault(st.name, []).append(st)
+        for x in ast.walk(tree):
+            if isinstance(x, ast.Attribute) and isinstance(x.ctx, (ast.Store, ast.Del)):
+                taken.add(x.attr)
+            if isinstance(x, ast.Call) and isinstance(x.func, ast.Name) and x.func.id in ("getattr", "setattr", "hasattr") and len(x.args) >= 2 \
+                    and isinstance(x.args[1], ast.Constant) and isinstance(x.args[1].value, str):
+                taken.add(x.args[1].value)
+    names = {n for n in cands if n not in taken}
+    if not names:
+        return
+    for n in names:
+        for fd in cands[n]:
+            fd.decorator_list = []
+
+    class _Rw(ast.NodeTransformer):
+        def visit_Call(self, node: ast.Call) -> ast.AST:
+            f_ = node.func
+            if isinstance(f_, ast.Attribute):
+                f_.value = self.visit(f_.value)  # the callee attribute itself is not a property read
+            else:
+                node.func = self.visit(f_)
+            node.args = [self.visit(a) for a in node.args]
+            for k in node.keywords:
+                k.value = self.visit(k.value)
+            return node
+
+        def visit_Attribute(self, node: ast.Attribute) -> ast.AST:
+            self.generic_visit(node)
+            if isinstance(node.ctx, ast.Load) and node.attr in names:
+                return ast.copy_location(ast.Call(func=node, args=[], keywords=[]), node)
+            return node
+
+    for _fn, tree in parsed:
+        _Rw().visit(tree)
+        ast.fix_missing_locations(tree)
+
+
 def _record_names(trees: List[ast.Module]) -> set:
     """Names of the package's plain record classes (@dataclass / NamedTuple)."""
     out = set()
@@ -1269,6 +1491,9 @@ class Program:
                 raise AnalysisError(f"cannot parse {path}: {e}") from e
             parsed.append((fn, path, src, tree))
         records = _record_names([t for _f, _p, _s, t in parsed])
+        _undo_renames([(fn, t) for fn, _p, _s, t in parsed], self.known)
+        _new_properties_as_methods([(fn, t) for fn, _p, _s, t in parsed], self.known)
+        _eager_generators_as_collectors([(fn, t) for fn, _p, _s, t in parsed], self.known)
         for fn, path, src, tree in parsed:
             _desugar_match(tree)
             _plain_local_assignments(tree)
